@@ -100,6 +100,27 @@ def run(ctx):
             rep.violation(dict(kind="re-evaluation-changes-result", top=trees[i][0]),
                           "C03 fails: %s evaluates to %s once but %s gives %s" % (texts[i], single, rt, got),
                           dict(tree=trees[i], text=rt, impl=got, expected=want))
+    # --- the same expressions reached through arrays, comprehensions, variables; a quantity node evaluated once per
+    # element follows the element; mixing dimensions inside an aggregate is refused like everywhere else
+    C.seam_check(rep, ctx["rundir"], "C03", texts=[texts[i] for i in range(0, len(texts), max(1, len(texts) // 60))][:60],
+                 wrappers=C.SEAM_WRAPPERS + [C.SEAM_CONDITION],
+                 templates=[("%s km to m", ["1", "2", "3"]), ("%s m + 2 cm", ["1", "1/2", "0.5"]), ("(%s m) * (2 s)", ["1", "2", "3"]),
+                            ("%s m > 2 m", ["1", "2", "3"]), ("(%s m | s) * (1 s)", ["1", "2", "3"]), ("%s m m", ["1", "2"]), ("%s m + 1 s", ["1", "2"]),
+                            ("(6 m) / (%s s)", ["1", "2", "3"]), ("%s m^2 to cm^2", ["1", "2"])])
+    AGG_BAD = ["median({1 m, 2 s, 3 m})", "median({1, 2 m, 3})", "max({1 m, 2 s})", "min({1 s, 2 m, 3 s})", "sum({1 m, 1 s})", "mean({1 m, 1 s})",
+               "max({1 m, 2})", "median({1 m, 2 s})", "sum({1 m, 2})", "max(1 m, 2 s)", "min(1 m, 2 s, 3 m)", "{1 m, 2 s}; sum({1 m, 2 s})"]
+    AGG_OK = ["median({1 m, 200 cm, 3 m})", "max({1 m, 200 cm})", "sum({1 m, 1 cm})", "mean({1 m, 3 m})", "min({1 km, 2 m})"]
+    aobs = C.run_impl(Q.impl_case, AGG_BAD + AGG_OK, ctx["rundir"], limit=10.0)
+    for text, o in zip(AGG_BAD, aobs):
+        got = Q.impl_error_class(o)
+        if Q.parse_enc(got)[0] != "err":
+            rep.violation(dict(kind="mismatch-accepted", top="aggregate", op=text.split("(")[0]),
+                          "C03 fails: %s mixes dimensions but evaluates to %s" % (text, got), dict(text=text, impl=got, expected="an error"))
+    for text, o in zip(AGG_OK, aobs[len(AGG_BAD):]):
+        got = Q.impl_error_class(o)
+        if Q.parse_enc(got)[0] != "qty":
+            rep.violation(dict(kind="wrong-dimension", top="aggregate", op=text.split("(")[0]),
+                          "C03 fails: %s is dimensionally fine but gives %s" % (text, got), dict(text=text, impl=got, expected="a quantity"))
     # --- every base dimension counts, the last one (money) included: mixing it with anything else is rejected, and
     # it multiplies/divides like any other
     MONEY_BAD = ["5 eur to dozen", "12 rad to eur", "20 eur | h to Hz", "3 m eur to m", "5 eur + 5", "5 eur + 5 m", "5 eur < 5 s",
